@@ -9,6 +9,7 @@ pub use serde_json::{Value, json};
 
 pub mod exec;
 pub mod simws;
+pub mod muxsim;
 
 /// splitmix64: every random choice of a run derives from `VERIF_SEED` through this.
 #[derive(Clone, Debug)]
